@@ -48,9 +48,10 @@ pub fn compile_with(src: &str, modules: Option<HashMap<Vec<String>, String>>, b:
     };
     let mut program = Program::new();
     let mut cache = ModuleCache::new();
-    let c: Compiled = Compiler::compile(ast, &HashMap::new(), &mut cache, &resolver, &mut program, quiver_core::types::NIL, &HashMap::new(), b, None)
-        .map_err(|e| CompileErr::Compile(format!("{:?}", e.error)))?;
+    // as quiver-cli's compile_and_extract_entry does: the top level is a function of nil
     let nil_type_id = program.register_type(Type::nil());
+    let c: Compiled = Compiler::compile(ast, &HashMap::new(), &mut cache, &resolver, &mut program, nil_type_id, &HashMap::new(), b, None)
+        .map_err(|e| CompileErr::Compile(format!("{:?}", e.error)))?;
     let callable = program.register_type(Type::Callable { parameter: nil_type_id, result: c.result_type, receive: c.receive_type });
     let entry = program.register_function(Function { instructions: c.instructions, captures: 0, type_id: callable });
     Ok(CompiledProgram { program, entry, result_type: c.result_type, receive_type: c.receive_type, bindings: c.bindings })
